@@ -25,7 +25,7 @@ def run(tier, seed, replay=None):
     from splipy import curve_factory as cf, surface_factory as sf, volume_factory as vf
     rng = random.Random(seed)
     tol = C.fr(state.knot_tolerance)
-    reps = 30 if tier == 'quick' else 400
+    reps = 70 if tier == 'quick' else 400
     dist = {'op': {}, 'measure': {}, 'pardim': {}, 'rational': {}}
     evals = 0
     nontriv = set()
@@ -48,8 +48,9 @@ def run(tier, seed, replay=None):
     def regular_obj(pd, rational=None):
         """a smooth regular object: a lattice plus a small perturbation (so that the Jacobian keeps its sign), C1 at least"""
         while True:
-            s = O.gen_obj(rng, pardim=pd, kinds=['open'], nint_max=2, pmax={1: 4, 2: 4, 3: 3}[pd], dim=max(pd, rng.choice([2, 3])) if pd < 3 else 3, rational=rational)
-            if not continuous(s) or any(b['order'] < 3 for b in s['bases']):
+            # orders differ between the directions (each direction has its own quadrature rule): 2..5 for surfaces, 2..4 for volumes
+            s = O.gen_obj(rng, pardim=pd, kinds=['open'], nint_max=2 if pd < 3 else 1, pmax={1: 4, 2: 5, 3: 4}[pd], dim=max(pd, rng.choice([2, 3])) if pd < 3 else 3, rational=rational)
+            if not continuous(s) or any(b['order'] < (3 if pd == 1 else 2) for b in s['bases']):
                 continue
             shape = [O.nfun(b) for b in s['bases']]
             grev = []
